@@ -8,6 +8,7 @@ import (
 	"github.com/ipfs/go-cid"
 	"github.com/ipld/go-car/cmd/car/lib"
 	carv2 "github.com/ipld/go-car/v2"
+	mh "github.com/multiformats/go-multihash"
 )
 
 // fcheck runs the library's own inspection and verifier over a finished file.
@@ -35,8 +36,48 @@ func fcheck(file []byte, seq int) string {
 	return res
 }
 
+// longSession: one session far longer than the generated ones (thousands of sections), so that
+// anything that batches, pages or caps by count in Put/Flatten/Finalize is crossed.
+func longSession(g *Gen, o *Out, nblocks, seq int) {
+	bs := make([]Blk, nblocks)
+	for i := range bs {
+		d := []byte{byte(i), byte(i >> 8), byte(i >> 16)}[:1+i%3]
+		if i%3 == 0 {
+			d = append(d, byte(i>>8), 0xEE)
+		}
+		h, _ := mh.Sum(d, mh.SHA2_256, -1)
+		bs[i] = Blk{cid.NewCidV1(cid.Raw, h), d}
+	}
+	wo := g.wOpts()
+	wo.v1 = false
+	api := []string{"bs", "st"}[g.pick(2)]
+	roots := []cid.Cid{bs[0].C}
+	st, err := openStore(api, wo, roots, seq)
+	o.Line(fmt.Sprintf("open api=%s %s roots=%s", api, wo, rootsArg(roots)), "r="+classifyStore(err))
+	if err != nil {
+		return
+	}
+	for _, b := range bs {
+		o.Line(fmt.Sprintf("put c=%x d=%s", b.C.Bytes(), hexOr(b.D)), "r="+st.do("put", b.C, b.D, nil))
+	}
+	o.Line("finalize", "r="+st.do("finalize", cid.Undef, nil, nil))
+	f := st.fileBytes()
+	o.Line("file", fmt.Sprintf("file=%x", f))
+	o.Line("fcheck", fcheck(f, seq))
+	o.Count(fmt.Sprintf("long/%s/codec=%s/blocks=%d", api, wo.codec, nblocks))
+	st.cleanup()
+}
+
 func famC05(g *Gen, o *Out, n int, thorough bool) {
 	seq := 0
+	seq++
+	longSession(g, o, 2100+g.pick(2500), seq)
+	if thorough {
+		for _, k := range []int{1025, 4097 + g.pick(100), 8200 + g.pick(1000), 16500} {
+			seq++
+			longSession(g, o, k, seq)
+		}
+	}
 	for c := 0; c < n; c++ {
 		maxB := 6
 		if thorough {
